@@ -72,9 +72,18 @@ def targeted(rng, text):
     if m:
         out.append((text[:m.end()] + "a--b" + text[m.end():], "double-hyphen"))
         out.append((text[:m.end()] + "-" + text[m.end():].replace("-->", "--->", 1), "comment-ends-hyphen"))
+        out.append((text[:m.end()] + "a" + "-" * rng.choice([2, 3, 4]) + "b" + text[m.end():], "hyphen-run-in-comment"))
+        out.append((text[:m.end()] + text[m.end():].replace("-->", "-" * rng.choice([3, 4, 5]) + ">", 1), "comment-ends-hyphen-run"))
     m = re.search(r">[^<>&]+<", text)
     if m:
         out.append((text[:m.start() + 1] + "]]>" + text[m.start() + 1:], "cdata-end-in-chardata"))
+        # run-length and position variants of the forbidden delimiter (a scanner that counts brackets, looks one
+        # character too far or too near, or only checks the head of the text)
+        k = rng.choice([3, 3, 4, 5, 9])
+        out.append((text[:m.start() + 1] + "]" * k + ">" + text[m.start() + 1:], "cdata-end-long-bracket-run"))
+        out.append((text[:m.end() - 1] + "]" * rng.choice([2, 3, 4]) + ">" + text[m.end() - 1:], "cdata-end-at-end-of-chardata"))
+        out.append((text[:m.start() + 1] + "a[b[c[0]]]>0" + text[m.start() + 1:], "cdata-end-nested-brackets"))
+        out.append((text[:m.start() + 1] + "]]" + "&amp;" + "]]>" + text[m.start() + 1:], "cdata-end-after-reference"))
         out.append((text[:m.start() + 1] + "&nosuch;" + text[m.start() + 1:], "undeclared-entity"))
         out.append((text[:m.start() + 1] + "&#2;" + text[m.start() + 1:], "nonchar-charref"))
         out.append((text[:m.start() + 1] + "a & b" + text[m.start() + 1:], "bare-amp"))
